@@ -223,8 +223,12 @@ package capnp
 // ---------------------------------------------------------------- segment.go (read side)
 
 //@ func Segment.slice -> r
-//@   inline
-//@   strict
+//@   props C01 C03 C17
+//@   -- the caller must have bounds-checked the region (slice panics otherwise); the result is
+//@   -- exactly the sz bytes at base, as a window into the segment's array
+//@   requires s != nil && M(base)+M(sz) <= M(len(s.data)) && M(len(s.data)) <= mMaxSeg()
+//@   modifies nothing
+//@   ensures sameSlice(r, s.data[int(base):int(base)+int(sz)])
 
 //@ func Segment.regionInBounds -> r
 //@   props C01 C03
